@@ -15,7 +15,8 @@
      0  model = implementation, and the implementation's run satisfies the Spec
      1  model <> implementation, the Spec still accepts the run
      2  the implementation's run violates the Spec (a property violation)
-     3  the oracle's closure computation failed its own closedness test
+     3  the oracle's closure computation failed its own closedness test, or the
+        description is not well formed (wf_class, third clause)
         (never observed; reported as an evaluation failure)
    The oracle (step_oracle) uses Inval/Spec.v and the pools only — never
    Inval/Model.v. *)
@@ -327,8 +328,23 @@ Section Oracle.
   Definition oracle_all : bool := oracle (k_init k) (k_init_calls k) (k_hist k) (k_obs k).
 End Oracle.
 
+(* wf_class, third clause, on the description the harness derived from the
+   class text: the metadata's Attr.invalidated_by agrees with the declaration in
+   force wherever the map builder relies on it *)
+Fixpoint deps_eqb (a b : list dep) : bool :=
+  match a, b with
+  | [], [] => true
+  | x :: a', y :: b' => dep_eqb x y && deps_eqb a' b'
+  | _, _ => false
+  end.
+Definition inv_consistent_b (cd : cdesc cval) : bool :=
+  forallb (fun na => match decl_inv cd (fst na) with
+                     | Some inv => deps_eqb (builder_inv cd (fst na) (snd na)) inv
+                     | None => false
+                     end) (c_attrs cd).
+
 Definition check_case (k : ccase) : nat :=
-  if negb (all_closed k) then 3%nat
+  if negb (all_closed k && inv_consistent_b (k_cd k)) then 3%nat
   else if oracle_all k then (if tie_all k then 0%nat else 1%nat)
   else 2%nat.
 
